@@ -27,6 +27,23 @@ for tc in root.iter('testcase'):
 passed -= failed
 missing = [t for t in base['stable_pass'] if t not in passed]
 print(f'passed={len(passed)} failed={len(failed)} stable_expected={len(base["stable_pass"])} stable_missing={len(missing)}')
+if missing and len(missing) <= 40:
+    # The simulator tests compile a crate through trybuild on first use; after a source change the
+    # first run is cold and nextest's 300 s slow-timeout can terminate them. Re-run the missing
+    # ones once with the now warm cache before judging.
+    import subprocess, re
+    names = sorted({t.split('::')[-1] for t in missing})
+    expr = ' | '.join(f'test({n})' for n in names)
+    r = subprocess.run(['cargo', 'nextest', 'run', '--workspace', '--offline', '--no-fail-fast', '--tool-config-file', 'pb:/w/lib/nextest.toml', '--profile', 'pb', '-E', expr], cwd='/repo', capture_output=True, text=True)
+    open(f'{out}/rerun.log', 'w').write(r.stdout + r.stderr)
+    root2 = ET.parse('/repo/target/nextest/pb/junit.xml').getroot()
+    for tc in root2.iter('testcase'):
+        tid = (tc.get('classname') or '') + '::' + (tc.get('name') or '')
+        if tc.find('failure') is None and tc.find('error') is None and tc.find('skipped') is None:
+            passed.add(tid)
+    still = [t for t in missing if t not in passed]
+    print(f're-run of {len(missing)} missing stable tests with a warm cache: {len(missing) - len(still)} passed, {len(still)} still missing')
+    missing = still
 for t in missing[:50]:
     print('  NOT PASSED:', t, '(failed)' if t in failed else '(not run)')
 json.dump({'passed': sorted(passed), 'failed': sorted(failed), 'stable_missing': missing}, open(f'{out}/result.json', 'w'), indent=1)
